@@ -334,6 +334,9 @@ CHECKS = {"C14": check_c14, "C15": check_c15}
 CX_TIMEOUT = "Timeout during evaluating constexpr"
 CX_SRC = (corpus.HEADER + "@constexpr\ndef kpack(xa, xb):\n    return xa * 256 + xb\n"
           "while True:\n    d0.Setting = kpack(3, 4) + d1.Setting\n    yield_()\n")
+# the same call text `kpack(3, 4)` with another function body: a cache keyed too coarsely serves the first program's value
+CX2_SRC = (corpus.HEADER + "@constexpr\ndef kpack(xa, xb):\n    return xa * 1000 + xb + 1\n"
+           "while True:\n    d0.Setting = kpack(3, 4) + d1.Setting\n    yield_()\n")
 FN_SRC = (corpus.HEADER + "def fa(xa):\n    return xa + 1\ndef fb(xa):\n    d3.Setting = xa\n    return fa(xa * 2)\n"
           "while True:\n    d1.Setting = fb(d0.Setting) + fb(2)\n    d2.Setting = LogicType.Temperature + Color.Red\n    yield_()\n")
 SESSION_POOL = {
@@ -343,6 +346,7 @@ SESSION_POOL = {
     "prnoinline": {"text": "# pytrapic: no-inline-functions, remove-labels\n" + FN_SRC, "dir": {"inline_functions": False, "remove_labels": True}, "cx": False, "fmt": True},
     "functions": {"text": FN_SRC, "dir": {}, "cx": False, "fmt": True},
     "constexpr": {"text": CX_SRC, "dir": {}, "cx": True, "fmt": True},
+    "constexpr2": {"text": CX2_SRC, "dir": {}, "cx": True, "fmt": True},
     "alias": {"text": corpus.HEADER + 'pa = SolarPanel(d1, alias=True)\npb = SolarPanel(d2, alias="PANEL")\npa.Horizontal = 2\npb.Horizontal = d0.Setting\n', "dir": {}, "cx": False, "fmt": True},
     "prverbose": {"text": "# pytrapic: no-compact, inline-functions\n" + FN_SRC, "dir": {"compact": False, "inline_functions": True}, "cx": False, "fmt": True},
 }
@@ -441,7 +445,7 @@ def check_c11(tier, t0):
     srcids = sorted(SESSION_POOL)
     if tier == "quick":
         srcids = [s for s in srcids if s not in ("prverbose",)]
-    pool = {s: dict(SESSION_POOL[s], marker="kpack" if SESSION_POOL[s]["cx"] else "") for s in srcids}
+    pool = {s: dict(SESSION_POOL[s], marker={"constexpr": "xa * 256 + xb", "constexpr2": "xa * 1000 + xb + 1"}.get(s, "")) for s in srcids}
     pool_json = {"sources": {s: {"dir": pool[s]["dir"], "cx": pool[s]["cx"], "fmt": pool[s]["fmt"]} for s in srcids}, "objs": SESSION_OBJS}
     with open(os.path.join(d, "pool.json"), "w") as f:
         json.dump(pool_json, f)
